@@ -95,10 +95,15 @@ def handle (line : String) : String :=
     let mout := if g == "G:*" then "*" else canon (predictStatic s.dedup lay0 s.requested) ++ " " ++ " ".intercalate ets
     let mappable := s.requested.filter fun x => match lastLay.find? (·.1 == x) with | some (_, d) => !isErrDest d | none => false
     let allMap := mappable.length == s.requested.length
-    let v1 := specPartition s.dedup s.requested shards
-    let v2 := specLayout fan s.layouts shards
+    let rep := s.kind == "describelogdirs" || s.kind == "alterreplicalogdirs"
+    let v1 := if rep then
+        match specReplica s.requested lay0 shards with
+        | some k => some k
+        | none => if replicated s.requested lay0 then some ("C23.item-in-several-shards." ++ s.kind) else none
+      else specPartition s.dedup s.requested shards
+    let v2 := if rep then none else specLayout fan s.layouts shards
     let v3 := match s.merged with
-      | some (e, items) => specMerged fan allMap s.requested mappable shards e items
+      | some (e, items) => if rep then none else specMerged fan allMap s.requested mappable shards e items
       | none => some "C23.no-merged-response"
     let verdict := match v1, v2, v3 with
       | some k, _, _ => "0:" ++ k
